@@ -228,7 +228,7 @@ def rowscan_configs(tier):
     shapes = [((80,), 4), ((79,), 4), ((81,), 4), ((100,), 4), ((100,), 5), ((40, 3), 5), ((40, 3), 6), ((39, 3), 6), ((60, 2), 6)]
     if tier == "thorough":
         shapes += [((120,), 6), ((60, 2), 5)]
-    embs = [(0, 1, 2, 3, 4, 5, 9), (-2, 255, 256, 70000, -70000, 2 ** 40, 11)]  # dominant, 5 others, absent
+    embs = ROWSCAN_EMBS  # dominant, 5 others, absent
     for si, (shape, k) in enumerate(shapes):
         for ei in range(len(embs)):
             for dup in (False, True):
@@ -236,7 +236,8 @@ def rowscan_configs(tier):
     return cfgs
 
 
-ROWSCAN_EMBS = [(0, 1, 2, 3, 4, 5, 9), (-2, 255, 256, 70000, -70000, 2 ** 40, 11)]
+# the third one: small codes with NEGATIVE ones among them (a lookup table indexed by the raw code would wrap them)
+ROWSCAN_EMBS = [(0, 1, 2, 3, 4, 5, 9), (-2, 255, 256, 70000, -70000, 2 ** 40, 11), (7, -1, 2, 300, -5, 5, 9)]
 
 
 def rowscan_arrays(shape, k, emb, dup):
